@@ -197,6 +197,23 @@ InjectionOrder(n, rec) ==
                 ELSE Fail(n, IF me = "query" /\ i + 1 <= Len(ev) /\ ev[i + 1][1] = s /\ ev[i + 1][2] = "i_query"
                              THEN "mon.inj.order.D13" ELSE "mon.inj.order", <<i, s, me>>)
 
+\* C13 : the sub-state reported resumable for a region is the one a subsequent resume of that region activates.
+\* Judged on the observed data of a step whose only request is one external `resume d` that no callback touches
+\* (no scripted hook at all) and that was applied: every composite region at or below d that was inactive before and
+\* is active after - the regions the resume entered - has as active sub-state the one isResumable named before, else
+\* the first.
+ResumeAgrees(n, pre, rec) ==
+    LET o0 == pre[2]  o1 == rec.post
+        A0 == SetOfMask(o0.isA)  A1 == SetOfMask(o1.isA)  R0 == SetOfMask(o0.isR)
+    IN \A c \in Compos :
+          LET h == CompoHead(c) IN
+          IF h \in A1 /\ h \notin A0 /\ h \in Subtree(rec.a[3])       \* (above the destination the path decides)
+          THEN LET named == { p \in 1 .. St[h].width : Kid(h, p) \in R0 }
+                   want  == IF named = {} THEN 1 ELSE CHOOSE p \in named : TRUE
+               IN IF Cardinality(named) <= 1 /\ o1.act[c] = want THEN TRUE
+                  ELSE Fail(n, "mon.resume", <<h, named, o1.act[c]>>)
+          ELSE TRUE
+
 PlanStorage(n, post) ==
     LET cap   == Len(post.tl)
         R     == 1 .. Len(post.tb)
@@ -250,6 +267,9 @@ Monitors(n, pre, m, rec, entered, src) ==
        ELSE TRUE
     /\ IF rec.a[1] \in {"react", "query"} /\ ~rec.quiet THEN ConsumeStops(n, rec) ELSE TRUE
     /\ IF Cfg.inj # {} /\ ~rec.quiet THEN InjectionOrder(n, rec) ELSE TRUE
+    /\ IF rec.a[1] = "imm" /\ rec.a[2] = "resume" /\ ~pre[1] /\ rec.sc.hooks = <<>> /\ Len(rec.post.prev) = 1
+          /\ Has("TRANSITION_HISTORY")
+       THEN ResumeAgrees(n, pre, rec) ELSE TRUE
     \* C12 : random resolutions as the logger saw them (logger attached for the whole call)
     /\ IF ~rec.quiet /\ HasLog /\ rec.a[1] \notin {"logger", "del", "copy"}
           /\ (IF rec.a[1] = "new" THEN Len(rec.a) > 1 /\ rec.a[2] = 1 ELSE ~pre[1] /\ pre[2].lg = 1)
